@@ -170,6 +170,8 @@ def execute(rec):
         if "p" in op and op["p"] >= len(w.parties):
             continue
         kind = op["op"]
+        witness = w.witness(op)
+        pre = w.tree(op["p"]) if witness else None
         out = w.apply(op)
         if kind not in ("randomize", "rw"):
             obs.append((oi, kind, out["st"]))
@@ -201,6 +203,14 @@ def execute(rec):
             obs.append((oi, kind, out["st"], tree if out["st"] == "ok" else None))
         if out["st"] == "solvefail":
             stats["solvefail"] += 1
+            if witness:
+                # the pre-call values satisfy class blocks + this call's inline block: an earlier
+                # call's inline / dynamic constraint must still be in force
+                viol.append({"inv": "C06.leak_after", "cls": "C06.leak_after/fails_with_witness",
+                             "detail": {"op": oi, "state": pre, "inline": inline}})
+                break
+        elif witness and out["st"] == "ok":
+            stats["witness_calls"] = stats.get("witness_calls", 0) + 1
         # (conjoined / right object / boolean term) result of the call
         if out["st"] == "ok" and not aborted:
             try:
